@@ -54,6 +54,8 @@ def execute(scn, policy=None, seed=0, labels=None, monitors=("notes", "records",
                 express.add(exarn)
             if via == "event":
                 w.start_event(arn, s["name"], copy.deepcopy(s["input"]))
+            elif via == "minimal":
+                w.start_minimal_event(arn, s["name"], copy.deepcopy(s["input"]))
             elif via == "rest":
                 r = w.api("StartExecution", {"stateMachineArn": arn, "name": s["name"], "input": json.dumps(s["input"])}, iid=s.get("iid"))
                 run.api.append(("StartExecution", r))
